@@ -299,8 +299,14 @@ C08Cancel(v, c, answered) ==
     C08Base(v, BaseMid) @@ [id |-> "C08/" \o v \o "/cancel/" \o ToString(c) \o (IF answered THEN "/path" ELSE "/silent"),
                             label |-> v \o "/cancel", cancel_us |-> c,
                             path |-> IF answered THEN Background(v, 1, 4, 4, {}) ELSE PathOf([t \in 1..4 |-> <<>>])]
+\* the SACK handshake never sees its own SYN-ACK while SYN-ACKs of other connections to the same target keep arriving
+C08SackStream(us) ==
+    C08Base("sack", BaseMid) @@ [id |-> "C08/sack/synack_stream/" \o ToString(us), label |-> "sack/synack_stream", path |-> PathOf([t \in 1..4 |-> <<>>]),
+                                 no_synack |-> TRUE, flood_n |-> 1, flood_us |-> us, flood_kind |-> "synack_other", flood_at_open |-> TRUE,
+                                 t_local |-> "10.77.0.1", t_target |-> "198.51.100.9", t_dport |-> 33434]
 C08All(u) ==
     { C08Silence(v) : v \in Variants }
+    \cup { C08SackStream(us) : us \in {100000, 333000, 499000} }
     \cup { C08Flood(v, k, n) : v \in Variants, k \in {"foreign_te", "junk", "foreign_tcp"}, n \in {3, 40} }
     \cup { C08Sack(m) : m \in {"no_synack", "late_synack", "no_sackperm"} }
     \cup { C08Cancel(v, c, a) : v \in {"icmp4", "icmp6", "sack"}, c \in CancelGridUs, a \in BOOLEAN }
@@ -372,7 +378,12 @@ C10Scen(v, f, answered) ==
     [id |-> "C10/" \o v \o "/" \o f.op \o "/" \o ToString(f.k) \o "/" \o f.class \o (IF answered THEN "/path" ELSE "/silent"),
      label |-> v \o "/" \o f.op \o "#" \o ToString(f.k) \o "/" \o f.class,
      faults |-> <<f>>, path |-> IF answered THEN Background(v, 1, 4, 4, {2}) ELSE PathOf([t \in 1..4 |-> <<>>])]
-C10All(u) == UNION { { C10Scen(v, f, a) : f \in FaultPoints(v), a \in BOOLEAN } : v \in Variants }
+C10OnFault(v, k) ==
+    Common(v, TRUE, BaseMid, 1, 4) @@
+    [id |-> "C10/" \o v \o "/write/" \o ToString(k) \o "/while_dest", label |-> v \o "/write#" \o ToString(k) \o "/while_dest_reply_handled",
+     faults |-> <<[op |-> "write", k |-> k, class |-> "fatal", run |-> 0, with |-> [form |-> DestForm1(v), delay_us |-> 0]]>>,
+     path |-> PathOf([t \in 1..4 |-> <<>>])]
+C10All(u) == { C10OnFault(v, k) : v \in {"icmp4", "icmp6", "udp4", "udp6", "sack"}, k \in {2, 3, 4} } \cup UNION { { C10Scen(v, f, a) : f \in FaultPoints(v), a \in BOOLEAN } : v \in Variants }
                 \cup { Common(v, TRUE, BaseMid, 1, 4) @@ [id |-> "C10/" \o v \o "/nofault", label |-> v \o "/nofault", path |-> Background(v, 1, 4, 4, {2})] : v \in Variants }
 
 ---------------------------------------------------------------------------
